@@ -10,6 +10,30 @@ TB = ("TLC 1.8 + CommunityModules Json/IOUtils; the Python harness only drives, 
       "exact rational inputs) and logs; NumPy/SciPy for environment steps")
 
 CLAIMS = {
+    "C01": dict(
+        technique="TLA+ specification of integral matching (Match.tla) with property module P01 model-checked by TLC; two-stage TLC trace validation of replayed real runs",
+        text="TLC checks P01 (every window's integral under the target rule equals the summed reference integrals, hence the total) "
+             "exactly on every behaviour of the bounded instance (grids x fixed-sample sets x on/off-grid references incl. the tie x five "
+             "ways of designating fixed points x 2x2 rules x exponents 1..3) and emits them; recorded real results are accepted when "
+             "they equal the exact model (1e-8) and otherwise - and for real exponents in [0.05, 8] on grids up to 1000 samples - the "
+             "integral clauses are evaluated by TLC directly on the recorded values, so a change that only redistributes the "
+             "displacement raises no C01 alarm.",
+        ref="DESIGN.md 4 (C01), 2.3", note=TB + "; stage-2 clause evaluation at 1e-4 resolution with slack bounding the projection error"),
+    "C02": dict(
+        technique="TLA+ composition Rfa o Match o Average (MC_Pipeline) with property P02 model-checked by TLC; TLC evaluates the per-interval mean clauses on recorded real pipelines",
+        text="TLC checks on every lattice series x append option x five computable strategies x n x window x rule that the pipeline of the "
+             "specification preserves every original average (and that block averaging returns abscissae and averages for the rectangle "
+             "rule), emits each behaviour, and evaluates the mean clauses (integer sums of recorded values) on the real "
+             "Weaver(...).recreate_from_average(...).integral_match(...) result, on random series up to 60 points / n up to 64 with all "
+             "six strategies and real parameters, and on all 19 bundled datasets.",
+        ref="DESIGN.md 4 (C02)", note=TB + "; means judged at ~1e-5 relative precision; abscissae compared as bit patterns"),
+    "C03": dict(
+        technique="TLA+ specification of integral matching (Match.tla) with property module P03 model-checked by TLC; two-stage TLC trace validation incl. recorded idempotence pairs",
+        text="TLC checks P03 (samples outside the fixed span and fixed points unchanged, one sign per window, displacement proportional "
+             "to 1-(2|x-c|/w)^alpha by cross-multiplication, profile lemmas, idempotence) exactly on every in-scope behaviour of the "
+             "bounded instance; recorded real results must equal the exact model, results that differ are judged by the frame / sign / "
+             "profile clauses on the recorded values, and idempotence on the recorded pair of first and second application.",
+        ref="DESIGN.md 4 (C03), 2.3", note=TB + "; real exponents: frame, sign and order-level profile clauses only"),
     "C04": dict(
         technique="TLA+ specification of the recreate-from-average strategies (Rfa.tla) model-checked by TLC; TLC trace validation of replayed real runs (structure clauses)",
         text="On every lattice behaviour (series x n x window x 20 parameter combinations) TLC checks that the specification's output has "
